@@ -16,11 +16,15 @@ def bmUnion (a b : Bitmap) : Bitmap := a.foldl (fun acc n => bmInsert n acc) b
 
 abbrev KV := List (Key × Bitmap)
 
-def kvGet (kv : KV) (k : Key) : Bitmap := ((kv.find? (·.1 == k)).map (·.2)).getD []
+/-- `kv[k]` (empty bitmap when absent) -/
+def kvGet : KV → Key → Bitmap
+  | [], _ => []
+  | (k', bm) :: rest, k => if k' == k then bm else kvGet rest k
 
-def kvAdd (kv : KV) (k : Key) (n : Nat) : KV :=
-  if kv.any (·.1 == k) then kv.map (fun p => if p.1 == k then (p.1, bmInsert n p.2) else p)
-  else kv ++ [(k, [n])]
+/-- blockIndex.add(key, n) -/
+def kvAdd : KV → Key → Nat → KV
+  | [], k, n => [(k, [n])]
+  | (k', bm) :: rest, k, n => if k' == k then (k', bmInsert n bm) :: rest else (k', bm) :: kvAdd rest k n
 
 structure IndexFile where
   low  : Nat
